@@ -5,7 +5,7 @@ CONSTANTS Kinds = {"DE"}
   MaxGen = 2
   MaxInst = 3
   MaxCells = 14
-  Settings <- QSettings
+  Settings <- XSettings
   Design = "ok"
   MaxOps = 4
 INVARIANT NeverPerturbed
